@@ -32,6 +32,8 @@ inductive Decl where
   | bundle (name : Str) (deps : List Str)
   | fileSet (name : Str) (files : List Str) (includes : List Str)
   | sub (dirs : List Str)
+  /-- a rule with one explicit output (`download`): no dependencies, `Output` resolved in the package -/
+  | download (name : Str) (output : Str)
   /-- `n` statements that jsonx rejects (syntax errors, unknown rule types, unknown fields) -/
   | garbage (n : Nat)
   deriving DecidableEq, Repr
@@ -115,6 +117,10 @@ def resolveFile (cfg : Cfg) (p : Str) : List Decl → Option (List Node × List 
           let incs' := if cfg.includeResolved then incs.map (makePath p) else incs
           some (⟨nm, .rule, sortDedup (files.map (makePath p)) ++ incs'⟩ ::
                 ⟨nm ++ filesetSuffix, .out, [nm]⟩ :: ns, subs)
+      | .download name output =>
+        let nm := makeRelPath p name
+        if nm = p ∨ nm = [] then none
+        else some (⟨nm, .rule, []⟩ :: ⟨makeRelPath p output, .out, [nm]⟩ :: ns, subs)
       | .sub dirs => some (ns, dirs.map (makeRelPath p) ++ subs)
       | .garbage _ => some (ns, subs)
 
